@@ -168,8 +168,11 @@ def conservation(ctx, mg):
                 it = tb.loop_init(l, h)
     probs = []
     X1 = None
-    if not (it is not None and it[0] == "call" and it[1].endswith("Vec::drain") and it[2][1] == ("adt", "std::ops::RangeFrom", "RangeFrom", (("start", const(1)),))):
-        probs.append("the fuse loop does not run over buffer.drain(1..): %s" % (fmt(it)[:160] if it else "?"))
+    rest_of_buffer = it is not None and it[0] == "call" and (
+        (it[1].endswith("Vec::drain") and it[2][1] == ("adt", "std::ops::RangeFrom", "RangeFrom", (("start", const(1)),)))
+        or (it[1].endswith("Iterator::skip") and len(it[2]) == 2 and it[2][1] == const(1)))     # buffer.into_iter().skip(1)
+    if not rest_of_buffer:
+        probs.append("the fuse loop does not run over buffer.drain(1..) / buffer.into_iter().skip(1): %s" % (fmt(it)[:160] if it else "?"))
     else:
         X1 = it[2][0]
         okx = X1[0] == "call" and X1[1].endswith("collect") and X1[2][0][0] == "map"
